@@ -30,7 +30,8 @@ func ruleSizeSign(c *Ctx, r *Report, prefix string) {
 			continue
 		}
 		n, bad := 0, ""
-		for _, g := range guardsOf(fn) {
+		theCtx.curRoot = fn
+		for _, g := range guardsOfX(fn, true) { // a boolean helper (hasSize()) used as the condition counts with its comparison
 			if g.call != nil {
 				continue
 			}
